@@ -60,13 +60,13 @@ Lemma nf_unstash_ok l : forall s g s' evs,
   NfInvM c oi s g -> Forall (fun h => sh_reminder h = false) l ->
   (forall h, In h l -> sh_force h = true -> nf_mayforce oi (sh_type h) = true) ->
   g_cnt g + nf_count_problem l <= oi_kp oi ->
-  oi_tick oi = true -> oi_pdefer oi = true -> cx_glob_en x = true -> cx_ck_en x = true ->
+  oi_tick oi = true -> oi_pdefer oi = true -> cx_paused x && cx_ha x = false -> cx_glob_en x = true -> cx_ck_en x = true ->
   nf_unstash c now x l s = (s', evs) ->
   NfGood c oi g s' evs /\ nf_stash s' = nf_stash s /\
   g_cnt (nf_g_evs c oi g (nf_obs_evs evs)) <= g_cnt g + nf_count_problem l /\
   (cx_per_closed x = false -> nf_sup s' = nf_sup s).
 Proof.
-  induction l as [|h r IH]; intros s g s' evs HI HF HL HK Ht Hd E1 E2 HU.
+  induction l as [|h r IH]; intros s g s' evs HI HF HL HK Ht Hd Hph E1 E2 HU.
   - inversion HU; subst. split; [apply nf_good_nil; assumption|split; [reflexivity|split; [cbn; lia|auto]]].
   - cbn [nf_unstash] in HU.
     destruct (nf_begin c now x (sh_type h) (sh_force h) (sh_reminder h) s) as [s1 e] eqn:HB.
@@ -76,7 +76,7 @@ Proof.
     cbn [nf_count_problem] in HK. pose proof (nf_count_problem_nonneg r) as Hnn.
     assert (NfSide c oi (sh_type h) (sh_force h) (sh_reminder h) s g) as HS.
     { split; [intro F; apply HL; [left; reflexivity|exact F]|]. split; [intros _; split; assumption|].
-      split; [intro F; rewrite F in Ht; discriminate|]. split; [intros _ _; exact Hd|].
+      split; [intro F; rewrite F in Ht; discriminate|]. split; [intros _ _; exact Hd|]. split; [intros _; exact Hph|].
       intros _ Ep Hk. exfalso. rewrite Ep, nf_type_eqb_refl in HK. lia. }
     destruct (nf_begin_ok c oi _ _ _ s g s1 e HI HS HB) as (K1 & K2 & K3 & _ & K5).
     pose proof (nf_g_cnt_exec c oi g e) as (Kc1 & Kc2). cbv zeta in Kc1, Kc2. rewrite K5 in Kc2.
@@ -86,7 +86,7 @@ Proof.
     { destruct (nf_type_eqb (sh_type h) NfProblem) eqn:Ep; [lia|].
       rewrite Kc2; [lia|]. intro Q. rewrite Q in Ep. discriminate. }
     assert (g_cnt g1 + nf_count_problem r <= oi_kp oi) as HK' by lia.
-    destruct (IH s1 g1 s2 evs2 K2 HFr HL' HK' Ht Hd E1 E2 HR) as (G2 & St2 & Cn2 & Sp2).
+    destruct (IH s1 g1 s2 evs2 K2 HFr HL' HK' Ht Hd Hph E1 E2 HR) as (G2 & St2 & Cn2 & Sp2).
     assert (nf_obs_evs (NfEvExec e :: evs2) = nf_obs_ev (NfEvExec e) ++ nf_obs_evs evs2) as Eo by reflexivity.
     split; [|split; [rewrite St2; assumption|split]].
     + apply (nf_good_app c oi g s1 [NfEvExec e] s2 evs2).
@@ -126,16 +126,16 @@ Qed.
 Lemma nf_fire_loop_ok st tys : forall s sub g s' sub' evs,
   NfInvM c oi s g -> NoDup tys ->
   (In NfProblem tys -> sp_problem st = true -> g_cnt g < oi_kp oi) ->
-  oi_tick oi = true -> oi_pdefer oi = true -> cx_glob_en x = true -> cx_ck_en x = true ->
+  oi_tick oi = true -> oi_pdefer oi = true -> cx_paused x && cx_ha x = false -> cx_glob_en x = true -> cx_ck_en x = true ->
   nf_fire_loop c now x st tys s sub = (s', sub', evs) ->
   NfGood c oi g s' evs /\ nf_stash s' = nf_stash s.
 Proof.
-  induction tys as [|ty r IH]; intros s sub g s' sub' evs HI HN HP Ht Hd E1 E2 HF.
+  induction tys as [|ty r IH]; intros s sub g s' sub' evs HI HN HP Ht Hd Hph E1 E2 HF.
   - inversion HF; subst. split; [apply nf_good_nil; assumption|reflexivity].
   - inversion HN as [|? ? Hni HNr]; subst. cbn [nf_fire_loop] in HF.
     destruct (negb (nf_supp_has st ty) || nf_reason_suppressed x ty) eqn:Sk.
     + assert (In NfProblem r -> sp_problem st = true -> g_cnt g < oi_kp oi) as HPr by (intros Hi; apply HP; right; assumption).
-      exact (IH _ _ _ _ _ _ HI HNr HPr Ht Hd E1 E2 HF).
+      exact (IH _ _ _ _ _ _ HI HNr HPr Ht Hd Hph E1 E2 HF).
     + apply orb_false_iff in Sk. destruct Sk as [Sh _]. apply negb_false_iff in Sh.
       set (s1 := nf_set_sup s (nf_supp_minus (nf_sup s) (nf_supp_ins sub ty))) in *.
       destruct (nf_begin c now x ty false false s1) as [s2 e] eqn:HB.
@@ -144,14 +144,14 @@ Proof.
       assert (NfInvM c oi s1 g) as HI1 by (apply NfInvM_sup; assumption).
       assert (NfSide c oi ty false false s1 g) as HS.
       { split; [discriminate|]. split; [intros _; split; assumption|].
-        split; [intro F; rewrite F in Ht; discriminate|]. split; [intros _ _; exact Hd|].
+        split; [intro F; rewrite F in Ht; discriminate|]. split; [intros _ _; exact Hd|]. split; [intros _; exact Hph|].
         intros _ Ep Hk. exfalso. subst ty. cbn in Sh. pose proof (HP (or_introl eq_refl) Sh). lia. }
       destruct (nf_begin_ok c oi _ _ _ s1 g s2 e HI1 HS HB) as (K1 & K2 & K3 & _ & K5).
       pose proof (nf_g_cnt_exec c oi g e) as (_ & Kc2). cbv zeta in Kc2. rewrite K5 in Kc2.
       assert (In NfProblem r -> sp_problem st = true -> g_cnt (nf_g_evs c oi g (nf_obs_ev (NfEvExec e))) < oi_kp oi) as HP'.
       { intros Hi Hs. assert (ty <> NfProblem) as Nq by (intro Q; apply Hni; rewrite Q; exact Hi).
         rewrite (Kc2 Nq). apply HP; [right; assumption|assumption]. }
-      destruct (IH _ _ _ _ _ _ K2 HNr HP' Ht Hd E1 E2 HR) as [G3 St3].
+      destruct (IH _ _ _ _ _ _ K2 HNr HP' Ht Hd Hph E1 E2 HR) as [G3 St3].
       split; [|rewrite St3, K3; reflexivity].
       apply (nf_good_app c oi g s2 [NfEvExec e] s3 evs3).
       * apply nf_good_one; assumption.
@@ -161,11 +161,11 @@ Qed.
 Lemma nf_fire_ok s g s' evs :
   NfInvM c oi s g ->
   (cx_per_closed x = false -> sp_problem (nf_sup s) = true -> nf_reason_applies x NfProblem = true -> g_cnt g < oi_kp oi) ->
-  oi_tick oi = true -> oi_pdefer oi = true -> cx_glob_en x = true -> cx_ck_en x = true ->
+  oi_tick oi = true -> oi_pdefer oi = true -> cx_paused x && cx_ha x = false -> cx_glob_en x = true -> cx_ck_en x = true ->
   nf_fire c now x s = (s', evs) ->
   NfGood c oi g s' evs /\ nf_stash s' = nf_stash s.
 Proof.
-  intros HI HP Ht Hd E1 E2 HF. unfold nf_fire in HF.
+  intros HI HP Ht Hd Hph E1 E2 HF. unfold nf_fire in HF.
   destruct (nf_supp_empty (nf_sup s)).
   { inversion HF; subst. split; [apply nf_good_nil; assumption|reflexivity]. }
   destruct (nf_fire_drop x nf_fire_types (nf_sup s) nf_supp_none) as [st sub] eqn:HD.
@@ -180,7 +180,7 @@ Proof.
     assert (NoDup nf_fire_types) as ND.
     { unfold nf_fire_types. repeat constructor; cbn; intuition discriminate. }
     destruct (nf_fire_loop c now x st nf_fire_types s sub) as [[s1 sub1] evs1] eqn:HL.
-    destruct (nf_fire_loop_ok st nf_fire_types _ _ _ _ _ _ HI ND HP' Ht Hd E1 E2 HL) as [[G1 G2] St].
+    destruct (nf_fire_loop_ok st nf_fire_types _ _ _ _ _ _ HI ND HP' Ht Hd Hph E1 E2 HL) as [[G1 G2] St].
     inversion HF; subst s' evs; clear HF.
     destruct (nf_supp_empty sub1); [split; [split|]; assumption|].
     split; [split; [assumption|apply NfInvM_sup; assumption]|assumption].
@@ -197,11 +197,12 @@ Proof.
 Qed.
 
 Lemma nf_tick_rem_ok s g s' evs :
-  NfInvM c oi s g -> oi_tick oi = true -> oi_pdefer oi = true -> cx_glob_en x = true -> cx_ck_en x = true ->
+  NfInvM c oi s g -> oi_tick oi = true -> oi_pdefer oi = true -> cx_paused x && cx_ha x = false ->
+  cx_glob_en x = true -> cx_ck_en x = true ->
   nf_tick_rem c now x s = (s', evs) ->
   NfGood c oi g s' evs /\ nf_stash s' = nf_stash s.
 Proof.
-  intros HI Ht Hd E1 E2 HR. unfold nf_tick_rem in HR.
+  intros HI Ht Hd Hph E1 E2 HR. unfold nf_tick_rem in HR.
   destruct ((nfc_interval c <=? 0) && nf_nomore s) eqn:Nm.
   { inversion HR; subst. split; [apply nf_good_nil; assumption|reflexivity]. }
   destruct (now <? nf_next s) eqn:Nx.
@@ -220,7 +221,7 @@ Proof.
   inversion HR; subst s' evs; clear HR.
   assert (NfSide c oi NfProblem false true s1 g) as HS.
   { split; [discriminate|]. split; [auto|]. split; [intro F; rewrite F in Ht; discriminate|].
-    split; [intros _ _; exact Hd|].
+    split; [intros _ _; exact Hd|]. split; [intros _; exact Hph|].
     intros _ _ _. split; [|split].
     - unfold nf_rem_ctx_ok. fold x. rewrite Hs.
       apply negb_false_iff in Hh. rewrite Hh.
@@ -240,9 +241,10 @@ End Ops.
 Lemma nf_g_start_inv c oi s g : NfInv c s g -> NfInvM c oi s (nf_g_start c oi g).
 Proof.
   intros (A & B & C & D & E). unfold nf_g_start. apply nf_mask_inv; [|reflexivity].
-  repeat split; cbn; auto.
-  - destruct (oi_now oi <? g_tm g) eqn:L; [discriminate|]. destruct (D t H). lia.
-  - destruct (oi_now oi <? g_tm g) eqn:L; [discriminate|]. destruct (D t H). assumption.
+  split; [exact A|]. split; [exact B|]. split; [|split; [|exact E]];
+    cbn [g_all g_pall g_inc g_pre g_last g_ps g_bad g_rem g_tm g_cnt nf_mkg].
+  - destruct (oi_recdrop oi); [intros; discriminate|exact C].
+  - intros t H. destruct (oi_now oi <? g_tm g) eqn:L; [discriminate|]. destruct (D t H). split; [lia|assumption].
 Qed.
 
 Lemma nf_mayforce_stash st now x h :
@@ -278,7 +280,7 @@ Proof.
     destruct (nf_stash s) eqn:Q; [left; exact Q|right; reflexivity]. }
   assert (nf_sup s1 = nf_sup s) as Hsup.
   { unfold s1. destruct (cx_paused x && cx_auth x); [|reflexivity]. destruct (nf_stash s); reflexivity. }
-  destruct (cx_paused x && cx_ha x).
+  destruct (cx_paused x && cx_ha x) eqn:Hph.
   { inversion HT; subst. apply nf_good_nil. assumption. }
   destruct (negb (cx_glob_en x) || negb (cx_ck_en x)) eqn:En.
   { inversion HT; subst. apply nf_good_nil. assumption. }
@@ -297,19 +299,19 @@ Proof.
     pose proof (nf_count_problem_incl _ _ Hst) as Hci.
     assert (g_cnt g + nf_count_problem (nf_stash s1) <= oi_kp oi) as HK.
     { rewrite Hkp, Hc0. destruct (sp_problem (nf_sup s) && nf_reason_applies x NfProblem); lia. }
-    destruct (nf_unstash_ok c oi (nf_stash s1) _ g sa ea HI2 HFs HL HK Ht Hd E1 E2 HU) as ([Ga1 Ga2] & Sa & Cna & Spa).
+    destruct (nf_unstash_ok c oi (nf_stash s1) _ g sa ea HI2 HFs HL HK Ht Hd Hph E1 E2 HU) as ([Ga1 Ga2] & Sa & Cna & Spa).
     assert (cx_per_closed x = false -> sp_problem (nf_sup sa) = true -> nf_reason_applies x NfProblem = true ->
             g_cnt (nf_g_evs c oi g (nf_obs_evs ea)) < oi_kp oi) as HP.
     { intros Po P Ra. rewrite (Spa Po) in P. cbn [nf_sup nf_set_stash] in P. rewrite Hsup in P.
       rewrite Hkp, P, Ra. cbn [andb]. lia. }
-    destruct (nf_fire_ok c oi sa _ sb eb Ga2 HP Ht Hd E1 E2 HF) as [[Gb1 Gb2] Sb].
-    destruct (nf_tick_rem_ok c oi sb _ s3 evs3 Gb2 Ht Hd E1 E2 HR) as [Gr Sr].
+    destruct (nf_fire_ok c oi sa _ sb eb Ga2 HP Ht Hd Hph E1 E2 HF) as [[Gb1 Gb2] Sb].
+    destruct (nf_tick_rem_ok c oi sb _ s3 evs3 Gb2 Ht Hd Hph E1 E2 HR) as [Gr Sr].
     apply (nf_good_app c oi g sb (ea ++ eb) s3 evs3).
     + apply (nf_good_app c oi g sa ea sb eb); split; assumption.
     + rewrite nf_obs_evs_app, nf_g_evs_app. exact Gr.
   - destruct (nf_tick_rem c now x s1) as [s3 evs3] eqn:HR.
     inversion HT; subst s' evs; clear HT.
-    destruct (nf_tick_rem_ok c oi s1 g s3 evs3 HI1 Ht Hd E1 E2 HR) as [Gr Sr]. exact Gr.
+    destruct (nf_tick_rem_ok c oi s1 g s3 evs3 HI1 Ht Hd Hph E1 E2 HR) as [Gr Sr]. exact Gr.
 Qed.
 
 Lemma nf_request_ok c s g now x ty force s' evs :
@@ -333,10 +335,11 @@ Proof.
         { assert (nf_mayforce oi ty = force) as Mf.
           { unfold nf_mayforce, oi, nf_opinfo_st, nf_opinfo_of. cbn [oi_forced]. destruct force; cbn [existsb]; [|reflexivity].
             rewrite nf_type_eqb_refl. reflexivity. }
-          split; [intro F; rewrite Mf; exact F|]. split; [|split; [intros _; split; [reflexivity|exact Mf]|split]].
+          split; [intro F; rewrite Mf; exact F|]. split; [|split; [intros _; split; [reflexivity|exact Mf]|split; [|split]]].
           - intro F. rewrite F in En. cbn in En. rewrite andb_true_r in En.
             apply orb_false_iff in En. destruct En as [A B]. apply negb_false_iff in A, B. split; assumption.
           - intros Ep Ff. unfold oi, nf_opinfo_st, nf_opinfo_of. cbn [oi_pdefer]. rewrite Ep, Ff. reflexivity.
+          - intro F; discriminate.
           - intro F; discriminate. }
         destruct (nf_begin_ok c oi _ _ _ s g s1 e HI HS HB) as (K1 & K2 & _).
         apply nf_good_one; assumption.
